@@ -20,7 +20,11 @@ from simkit import base, driver, world
 
 MT0 = 1_400_000_000 * 10**9
 ADVERSARIAL = ['conftest', 'setup', 'sitecustomize', 'usercustomize', '__main__', 'gi', 'manage',
-               'test_adv', '_json', 'math', 'antigravity', 'this']
+               'test_adv', '_json', 'math', 'antigravity', 'this',
+               # names that machinery INSIDE the helper imports lazily while it looks a module up (meta-path
+               # finders installed by site-packages such as setuptools' distutils shim; codec modules behind
+               # a PEP 263 cookie): they must not resolve to project files
+               'setuptools', 'pkg_resources', '_codecs_kr', '_multibytecodec', 'stringprep', 'quopri']
 SENT = world.SENTINEL
 
 
@@ -59,6 +63,11 @@ def gen_case(seed, tier, i):
         files['pa/sa.py'] = sent() + world.gen_module_source(rng, 'pa.sa', 1)
         files['pa/conftest.py'] = sent() + 'import pytest\n\n@pytest.fixture\ndef fx_pa():\n    return 1\n'
         mods += ['pa', 'pa.sa']
+    cookie = None
+    if rng.random() < 0.35:
+        # a module whose source declares a legacy codec (decoding it makes Python look the codec up)
+        cookie = rng.choice(['euc-kr', 'shift_jis', 'gbk', 'big5', 'idna', 'latin-1'])
+        files['cookie_mod.py'] = '# -*- coding: %s -*-\n' % cookie + sent() + 'def cooked(c_arg):\n    return c_arg\n'
     if rng.random() < 0.5:
         files['evil.pth'] = 'import os; open(os.path.join(os.environ["JV_SENTINEL_DIR"], "pth"), "w").close()\n'
     if rng.random() < 0.4:
@@ -104,6 +113,13 @@ def gen_case(seed, tier, i):
             b.add('import %s' % miss, [('infer', 'import ' + miss[:3], None)])
             b.add('from %s import thing' % miss.split('.')[0].replace('no_such', 'nosuch'),
                   [('goto', 'import th', {'follow_imports': True})])
+        if 'setuptools' in names or 'pkg_resources' in names or rng.random() < 0.1:
+            # not in the standard library any more: third-party finders of the environment answer for it
+            b.add('import distutils', [('infer', 'import dist', None)])
+            b.add('distutils.core', [('complete', 'distutils.', None)])
+        if cookie:
+            b.add('import cookie_mod')
+            b.add('cookie_mod.cooked(1)', [('get_signatures', 'cooked(', None), ('complete', 'cookie_mod.', None)])
         if with_zip:
             b.add('import okzip')
             b.add('okzip.okf(1)', [('get_signatures', 'okf(', None)])
